@@ -238,7 +238,7 @@ A == <<"a">>   Bb == <<"b">>   X == <<"x">>   Y == <<"y">>
 KvKeys   == {A, Bb} \cup (IF Deep THEN {<<"a", " ", "b">>} ELSE {})
 KvVals   == {<<>>, X, <<"x", "=", "y">>} \cup (IF Deep THEN {<<"x", " ", "y">>, <<"=">>} ELSE {})
 KvLines  == {KvLine("pair", key, v, c) : key \in KvKeys, v \in KvVals, c \in {FALSE}}
-            \cup {KvLine("pair", key, v, TRUE) : key \in KvKeys, v \in (IF Deep THEN KvVals ELSE {X})}
+            \cup {KvLine("pair", key, v, TRUE) : key \in KvKeys, v \in (IF Deep THEN {X, <<"x", "=", "y">>} ELSE {X})}
             \cup {KvLine("bare", key, <<>>, c) : key \in KvKeys, c \in {FALSE}}
             \cup {KvLine("comment", <<>>, <<>>, FALSE), KvLine("blank", <<>>, <<>>, FALSE)}
 KvInputs(nb) == [lines : SeqsUpTo(KvLines, nb), sep : {<<"=">>}, cc : {<<"#">>}, part : BOOLEAN]
@@ -261,12 +261,20 @@ RowSeqs(cols, nb) ==
 Edge(hi, junk, ti, foot) == [hi |-> hi, junk |-> junk, ti |-> ti, foot |-> foot]
 JunkLine == <<"#", " ", "j">>   FootLine == <<"-", "-", " ", "f">>   Ti == <<"-", "-">>
 Edges    == {Edge(FALSE, <<>>, <<>>, <<>>), Edge(TRUE, <<JunkLine, <<>>>>, Ti, <<FootLine, <<>>>>)}
+NoEdge == Edge(FALSE, <<>>, <<>>, <<>>)
+FixedCols     == UNION {ColSeqs(m, pad) : m \in 1..3, pad \in (IF Deep THEN {1, 2, 3} ELSE {1, 2})}
+(* junk / footer / margin variants: not for the two-row tables of the thorough tier (volume) *)
+FixedEdges(cols, rows)   == IF (Len(cols) = 3 /\ ~Deep) \/ (Deep /\ Len(rows) > 1) THEN {NoEdge} ELSE Edges
+FixedMargins(cols, rows) == IF Len(cols) = 2 /\ ~(Deep /\ Len(rows) > 1) THEN {0, 2} ELSE {0}
+FixedTab(cols, rows, e, mg) ==
+    [cols |-> cols, rows |-> rows, margin |-> mg, hi |-> e.hi, junk |-> e.junk, ti |-> e.ti, foot |-> e.foot]
 FixedFor(cols, nb) ==
-    {[cols |-> cols, rows |-> rows, margin |-> mg, hi |-> e.hi, junk |-> e.junk, ti |-> e.ti, foot |-> e.foot] :
-       rows \in RowSeqs(cols, nb), e \in (IF Len(cols) = 3 /\ ~Deep THEN {Edge(FALSE, <<>>, <<>>, <<>>)} ELSE Edges),
-       mg \in (IF Len(cols) = 2 THEN {0, 2} ELSE {0})}
-FixedInputs(nb) ==
-    UNION {FixedFor(cols, nb) : cols \in UNION {ColSeqs(m, pad) : m \in 1..3, pad \in (IF Deep THEN {1, 2, 3} ELSE {1, 2})}}
+    UNION {{FixedTab(cols, rows, e, mg) : e \in FixedEdges(cols, rows), mg \in FixedMargins(cols, rows)} : rows \in RowSeqs(cols, nb)}
+FixedInputs(nb) == UNION {FixedFor(cols, nb) : cols \in FixedCols}
+(* the same set, chosen step by step (TLC need not build the union) *)
+FixedChoice(nb) ==
+    \E cols \in FixedCols : \E rows \in RowSeqs(cols, nb) :
+    \E e \in FixedEdges(cols, rows) : \E mg \in FixedMargins(cols, rows) : inp = FixedTab(cols, rows, e, mg)
 
 DNames   == {A, Bb, <<"a", " ", "b">>}
 DCells(d) == IF d = <<>> THEN {X, <<"x", "y">>} ELSE {<<>>, X, <<"x", " ", "y">>}
@@ -307,7 +315,8 @@ Inputs == CASE Fam = "kv" -> KvInputs(N)
 
 -----------------------------------------------------------------------------
 (* One behaviour: choose a document, read it back.                          *)
-Init == inp \in Inputs /\ out = <<>> /\ done = FALSE
+Init == /\ IF Fam = "fixed" THEN FixedChoice(N) ELSE inp \in Inputs
+        /\ out = <<>> /\ done = FALSE
 
 ReadBack(nm) == /\ ~done /\ out' = nm /\ done' = TRUE /\ UNCHANGED inp
 SplitKvPairs   == Fam = "kv" /\ ReadBack(NormalKv(inp))
